@@ -87,6 +87,7 @@ type vkSrvCfg struct {
 	Hosts     bool
 	ECS       bool
 	ACL       []string // access list (nil = everyone)
+	DNS64     bool     // dns64 with the well-known prefix
 }
 
 type vkSrvWorld struct {
@@ -190,6 +191,10 @@ func vkNewSrvWorld(spec vkSrvCfg) *vkSrvWorld {
 	if spec.ECS {
 		cfg.ECS.Enabled = true
 	}
+	if spec.DNS64 {
+		cfg.DNS64.Enabled = true
+		cfg.DNS64.Prefixes = []string{"64:ff9b::/96"}
+	}
 	up := &vkUp{script: map[string]func(*dns.Msg) *dns.Msg{}}
 	middleware.Reset()
 	defaults.RegisterUpTo("failover")
@@ -272,6 +277,9 @@ type vkResult struct {
 	up      int      // upstream (stub) invocations
 	lastUp  *dns.Msg
 	handoff bool
+	// inlineUp: upstream (stub) invocations that happened DURING the inline pass of the UDP reader
+	// (ServeRawInline), i.e. on the goroutine that reads the socket
+	inlineUp int
 }
 
 // serve runs one raw packet through the chosen entry path on transport proto ("udp"/"tcp")
@@ -326,6 +334,7 @@ func (w *vkSrvWorld) serve(path vkPath, proto string, client netip.AddrPort, raw
 			res.replies = pl.out
 			break
 		}
+		inlineUp := 0
 		run := func(cl netip.AddrPort, pkt []byte) (tx [][]byte, handoff bool) {
 			j := w.udpSlab()
 			j.transition(udpJobFree, udpJobReading)
@@ -353,7 +362,10 @@ func (w *vkSrvWorld) serve(path vkPath, proto string, client netip.AddrPort, raw
 				j.rejectInPlace(v)
 			default:
 				if path == vkPathInline {
-					if !w.s.ServeRawInline(j, j.rx[:j.rxLen], now) && j.txLen == 0 {
+					upBefore := w.up.calls
+					inlineDone := w.s.ServeRawInline(j, j.rx[:j.rxLen], now)
+					inlineUp += w.up.calls - upBefore
+					if !inlineDone && j.txLen == 0 {
 						handoff = true
 						if !w.s.ServeRawReplay(j, j.rx[:j.rxLen], now) {
 							j.rejectInPlace(acceptFormatError)
@@ -374,7 +386,9 @@ func (w *vkSrvWorld) serve(path vkPath, proto string, client netip.AddrPort, raw
 			run(vkPrimerClient, w.primer)
 		}
 		_ = verdict
+		inlineUp = 0
 		res.replies, res.handoff = run(client, raw)
+		res.inlineUp = inlineUp
 	case proto == "tcp":
 		conn := &vkConn{remote: vkAddr(proto, client), local: vkAddr(proto, netip.MustParseAddrPort("127.0.0.1:53"))}
 		if path == vkPathDecoded {
